@@ -26,6 +26,16 @@ def groups(tier):
         variants += [{"logical_processors": lp, "unpin": u, "target_socket": ts} for lp in (1, 4) for u in (0, 1) for ts in (-1, 0)
                      if (u, ts) != (1, -1)]
         out.append((base, variants))
+    # size classes read off load_default_buffer_configuration_settings: the ME / CDEF / temporal-filter segment grid is 1x1 for
+    # one core and otherwise 10 columns when (w+32)/64 >= 10 and 6 rows when (h+32)/64 >= 6 (halved for 2-3 cores); one picture
+    # per class so that every thread-count dependent segment split is exercised
+    big = ((608, 96), (96, 352), (608, 352)) if tier == "quick" else ((608, 96), (96, 352), (608, 352), (640, 384), (768, 64))
+    for (w, h), c, bd in itertools.product(big, ("grad", "screen"), (8, 10)):
+        if bd == 10 and (c != "grad" or (tier == "quick" and (w, h) != (608, 352))):
+            continue
+        base = {"w": w, "h": h, "n": 4 if tier == "quick" else 7, "content": c, "enc_mode": 8, "hierarchical_levels": 3,
+                "encoder_bit_depth": bd, "recon_enabled": 1}
+        out.append((base, [{"logical_processors": lp} for lp in ((1, 2, 4) if tier == "quick" else (1, 2, 3, 4, 8, 16))]))
     return out
 
 
